@@ -13,11 +13,13 @@ CONSTANTS
   Callers <- Two
   MaxCalls = 2
   Budget = 3
-  ReqMenu <- MenuMix
+  ReqMenu <- MenuMix4
   NoMutex = FALSE
   LateEnqueue = FALSE
   ContinueAfterOversize = FALSE
   UnknownKills = FALSE
+  Faults = FALSE
+  Sticky = FALSE
 INVARIANTS TypeOK OwnReply OneReplyInOrder LinInsideCall RejectGetsFailure ConnErrOnlyIfEnded EndsOnlyByBadFrame NoReplyToBadFrame
 PROPERTIES AgentOnlyByServe FailureIsolated EndIsLocal 
 VIEW View
